@@ -236,7 +236,11 @@ class Evaluator:
         if op == "max":
             return rmax([ev(x) for x in args])
         if op == "clamp" and len(args) == 3:
-            return rmin([rmax([ev(args[0]), ev(args[1])]), ev(args[2])])
+            # f64::clamp propagates a NaN receiver (unlike min/max)
+            v, lo_, hi_ = ev(args[0]), ev(args[1]), ev(args[2])
+            if v.empty():
+                return IV(None, None, v.nan)
+            return IV(max(v.lo, lo_.lo), min(v.hi, hi_.hi) if min(v.hi, hi_.hi) >= max(v.lo, lo_.lo) else max(v.lo, lo_.lo), v.nan)
         if op == "signum":
             v = ev(args[0])
             return IV(-1.0, 1.0, v.nan)
